@@ -58,6 +58,16 @@ let () =
     | ["H"] -> c := c_init; s := s_init; print_endline "H"
     | ["E"] -> print_endline ("status " ^ h (Z.sub !c.c_mallocs !c.c_frees))
     | w ->
+      (* regrow h n: a view is resized to a larger count and nothing is written; for the machines this is OResize with the bytes
+         the reference holds at that place (writing them changes nothing) *)
+      let w = match w with
+        | ["regrow"; hs; ns] ->
+          let hh = nat_of_hex hs and n = z_of_hex ns in
+          (match sget !s hh with
+           | Some a -> let cnt = s_cnt a and e = s_esz a in
+             ["resize"; hs; ns; hexb (s_rd !s hh a (Z.mul cnt e) (Z.mul (Z.sub n cnt) e))]
+           | None -> ["resize"; hs; ns; "-"])
+        | _ -> w in
       (match parse w with
        | None -> print_endline "UNKNOWN_OP"
        | Some o ->
